@@ -14,6 +14,11 @@ func (c *Decoder) decodeExpression(frame *Frame) (ast.Expression, error) {
 	var err error
 	var expr ast.Expression
 
+	if err := c.enter(); err != nil {
+		return nil, err
+	}
+	defer c.leave()
+
 	switch frame.Type() {
 	case GROUPED_EXPRESSION:
 		expr, err = c.decodeGroupedExpression()
